@@ -48,6 +48,10 @@ MODES = {
     'FP16': (FC_, cfg(wbits=16, wdtype='FLOAT', cp='FLOAT', edq=True)),
 }
 ALL_MODES = ['NQ'] + list(MODES)
+# op-replacement (emulated sub-channel) mode: only in C01's alphabet
+BLK8 = cfg(wbits=8, wgran='BLOCKWISE', cp='FLOAT', edq=True, skip=True)
+BLK8['weight_tensor_config']['block_size'] = 2
+MODES['BLK8'] = (MMU, BLK8)
 MODE12 = ['NQ', 'SRQ8a', 'SRQ8s', 'SRQ16', 'SRQ8w4', 'DRQ8c', 'DRQ8t', 'DRQ4c',
           'WO8c', 'WO8a', 'WO4c', 'FP16']
 
